@@ -76,25 +76,30 @@ func VerifC06StreamDB() {
 	rt.TimeoutsMayFire = false
 	ctx := context.Background()
 	k := 2
-	store, db, chain := litefs.VerifPrimaryChain(k)
+	// the primary's log either starts after position 41 (older files gone) or holds every file since TXID 1
+	base := uint64([]int{41, 0}[rt.Choose("history.from", 2)])
+	store, db, chain := litefs.VerifPrimaryChainFrom(k, base)
 	primary := chain[k]
 	// the client's claimed position
-	ctx0 := []uint64{0, 40, 41, 42, 43, 44}[rt.Choose("client.txid", 6)]
+	ctx0 := base + uint64(rt.Choose("client.txid", 5)) - 1 // base-1 .. base+3
+	if rt.Choose("client.empty", 2) == 1 || int64(ctx0) < 0 {
+		ctx0 = 0
+	}
 	client := ltx.Pos{TXID: ltx.TXID(ctx0)}
 	onChain := false
-	if ctx0 >= 41 && ctx0 <= 43 && rt.Choose("client.checksum", 2) == 0 {
-		client.PostApplyChecksum = chain[ctx0-41].PostApplyChecksum
+	if ctx0 >= base && ctx0 <= base+2 && ctx0 != 0 && rt.Choose("client.checksum", 2) == 0 {
+		client.PostApplyChecksum = chain[ctx0-base].PostApplyChecksum
 		onChain = true
 	} else if ctx0 != 0 {
 		client.PostApplyChecksum = ltx.Checksum(rt.U64("client.chk")) | ltx.ChecksumFlag
-		if ctx0 >= 41 && ctx0 <= 43 {
-			rt.Assume(client.PostApplyChecksum != chain[ctx0-41].PostApplyChecksum)
+		if ctx0 >= base && ctx0 <= base+2 {
+			rt.Assume(client.PostApplyChecksum != chain[ctx0-base].PostApplyChecksum)
 		}
 	}
 	// retention may have removed the oldest transaction file
-	reaped := rt.Choose("reaped.42", 2) == 1
+	reaped := rt.Choose("reaped.oldest", 2) == 1
 	if reaped {
-		must(os.Remove(db.LTXPath(42, 42)))
+		must(os.Remove(db.LTXPath(ltx.TXID(base+1), ltx.TXID(base+1))))
 	}
 	posMap := map[string]ltx.Pos{"db": client}
 	s := &Server{store: store}
@@ -104,10 +109,10 @@ func VerifC06StreamDB() {
 	sent, _ := verifParseStream(w.body.B)
 	rt.Check(posMap["db"] == primary, "the replica's tracked position ends at the primary's position")
 
-	incrementalOK := onChain && !(reaped && ctx0 == 41)
+	incrementalOK := onChain && !(reaped && ctx0 == base)
 	if incrementalOK {
 		rt.Reach("c06.incremental")
-		rt.Check(len(sent) == int(43-ctx0), "a replica on the primary's history receives exactly the missing transactions")
+		rt.Check(len(sent) == int(base+2-ctx0), "a replica on the primary's history receives exactly the missing transactions")
 		prev := client
 		for _, x := range sent {
 			rt.Check(!x.hdr.IsSnapshot(), "no snapshot for a replica on the chain")
